@@ -115,6 +115,29 @@ fn three(bytes: &[u8], fl: Option<u64>, oracle: &mut Vec<String>) -> (String, Op
     let s = read_header(bytes, &ParseOptions::default()).0;
     let p = read_header(bytes, &ParseOptions::new_permissive(None)).0;
     let f = read_header(bytes, &ParseOptions::new_permissive(fl)).0;
+    // the same file offered without its magic bytes: file_len still counts them (documented), so the result is the same
+    let g = if bytes.len() >= 4 && bytes[..4] == Header::MAGIC {
+        let mut o = ParseOptions::new_permissive(fl);
+        o.skip_magic_bytes = true;
+        Some(read_header(&bytes[4..], &o).0)
+    } else {
+        None
+    };
+    if let Some(g) = &g {
+        let same = match (g, &f) {
+            (Ok(a), Ok(b)) => a == b,
+            (Err(_), Err(_)) => true,
+            _ => false,
+        };
+        if !same {
+            oracle.push(format!(
+                "skip_magic_bytes changes the permissive result for file_len {:?}: {} vs {}",
+                fl,
+                fmt_r(g),
+                fmt_r(&f)
+            ));
+        }
+    }
     // clause 2 (second half): without a file length permissive changes nothing strict accepts
     if let Ok(hs) = &s {
         match &p {
@@ -157,11 +180,12 @@ fn three(bytes: &[u8], fl: Option<u64>, oracle: &mut Vec<String>) -> (String, Op
     }
     let lf = f.as_ref().ok().and_then(data_len);
     let out = format!(
-        "s={} p={} f={} lf={}",
+        "s={} p={} f={} lf={} g={}",
         fmt_r(&s),
         fmt_r(&p),
         fmt_r(&f),
-        lf.map(|x| x.to_string()).unwrap_or("-".into())
+        lf.map(|x| x.to_string()).unwrap_or("-".into()),
+        g.as_ref().map(|g| fmt_r(g)).unwrap_or("-".into())
     );
     (out, f.ok())
 }
